@@ -28,7 +28,8 @@ CHECKS = [
         "readable, writable, bits, private), and type names: _type_to_name drops exactly the qualifier of the namespace being "
         "written (a namespace whose name merely starts with it stays qualified) and the reader's Namespace.type_from_name gives "
         "the same GI name back; _write_type writes that name. Assumed data invariants: a property has a transfer mode, a field has "
-        "a type or an anonymous node, the writer runs inside _write_namespace. Return values, records, classes, documents as a "
+        "a type or an anonymous node, the writer runs inside _write_namespace. _write_class is NOT under contract (a contract was "
+        "withdrawn because its vacuity guard was unstable under load; the seeded change there is recorded as missed). Return values, records, classes, documents as a "
         "whole and the shipped GIR files are not yet covered.", "DESIGN.md section 4 C07"),
     chk("C09", "The section-offset arithmetic of the real GIObjectInfo accessors (get_property/method/vfunc/constant, signal offset, "
         "field offset walk over embedded callbacks) is proved equal to the ObjectBlob layout of gitypelib-internal.h written as a "
@@ -38,7 +39,9 @@ CHECKS = [
         "g_struct_get_field_offset, g_union_info_get_field/method, g_enum_info_get_value/method and the attribute run lookup "
         "(_attribute_blob_find_first), and the type slots handed out as GITypeInfo (_g_type_info_new / _g_type_info_init: a slot "
         "whose low 24 bits are zero is an inline basic type, any other value is the offset of the complex type blob; the union / "
-        "bit-field layout of SimpleTypeBlob on a little-endian GCC target is an assumed precondition). Callable accessors, the "
+        "bit-field layout of SimpleTypeBlob on a little-endian GCC target is an assumed precondition), and g_property_info_get_setter / "
+        "get_getter (the method recorded in the PropertyBlob, available exactly when writable and not construct-only / readable and "
+        "not the sentinel). Callable accessors, the "
         "gitypeinfo.c accessors, g_irepository_get_info / find_by_name and the g-ir-generate text are not under contract.",
         "DESIGN.md section 4 C09",
         technique="deductive verification: clang-AST -> VC generator (givc C front end) on the real C functions + z3"),
@@ -90,7 +93,8 @@ CHECKS = [
         "assumed frames, dict iteration order as a ghost key list, namespace nodes have a name and a namespace (assumed data "
         "invariant), no symbol filter command. _pass_type_resolution (loop postconditions): the parent type of a class is an entry "
         "of the reported parent chain whose target is known, a class without a known entry keeps its parent (none is invented), "
-        "an interface falls back to GObject.Object. The parent-chain fallback, virtual methods and error quarks are not under contract; "
+        "an interface falls back to GObject.Object. _introspect_enum: enumeration vs bitfield is decided by the runtime registration "
+        "(<enum> / <flags>) alone, one member per reported value with its nick and registered name. The parent-chain fallback, virtual methods and error quarks are not under contract; "
         "gdump.c is out of scope.", "DESIGN.md section 4 C12"),
     chk("C03", "Contracts on the real identifier-level annotation functions: generic metadata (doc, Since/Deprecated/Stability, skip, "
         "foreign, constructor only on functions, method, set/get-property), block-name selection, and rename-to as a mutually "
@@ -105,7 +109,7 @@ CHECKS = [
         "Trusted: givc, schema incl. ownership regions of dictionaries; _apply_annotations_params (assumed, frame incomplete for the "
         "parameters' attribute dictionaries - stated in its note), _check_instance_parameter; slots pairwise distinct objects and "
         "scanned slots have a C return type (assumed data invariants). Signals, copy/free/ref/unref functions and the automatic "
-        "pairing _pair_class_virtuals are not under contract.", "DESIGN.md section 4 C03"),
+        "pairing _pair_class_virtuals are not under contract (a seeded change there is recorded as missed).", "DESIGN.md section 4 C03"),
     chk("C18", "Sequential contracts on the real CacheStore functions: an entry older than its source is never reported valid or "
         "served, an entry that fails to unpickle is discarded and never propagated as an exception, load validates before "
         "unpickling and never writes, store writes only a private temp file, completes it before the single rename into place, and "
@@ -115,7 +119,8 @@ CHECKS = [
         "OSError with the errno CPython attaches), time stamps: st_mtime_ns an exact integer, st_mtime an exact value with a fraction (float kind: only "
         "comparison and int() truncation are modelled, anything else is refused; the two fields are unrelated in the model, so "
         "code that falls back to the lossy float is refuted); genuine defect F11 (float comparison) repaired by /repo 2049799; "
-        "a native grid of real files (bounded) supplies failing inputs, os.stat as a function of the path (NO interference between steps: concurrent "
+        "a native grid of real files (bounded) supplies failing inputs; _get_versionhash (which source times feed the version stamp) is "
+        "assumed - a seeded change there is recorded as missed, os.stat as a function of the path (NO interference between steps: concurrent "
         "schedules and crash points are not decided beyond call order and tolerated ENOENT), rename atomicity.",
         "DESIGN.md section 4 C18"),
     chk("C19", "The library pattern is extracted from the real source, translated mechanically to an SMT regular expression with a "
